@@ -146,7 +146,8 @@ impl OutputFormatter {
         let schema = batches[0].schema();
 
         // Write header
-        let headers: Vec<&str> = schema.fields().iter().map(|f| f.name().as_str()).collect();
+        // Column names are quoted like cells (an unaliased `concat(a, b)` has a comma)
+        let headers: Vec<String> = schema.fields().iter().map(|f| csv_quote(f.name())).collect();
         writeln!(writer, "{}", headers.join(","))?;
 
         // Write data rows
@@ -207,7 +208,7 @@ impl OutputFormatter {
                     }
                     let col = batch.column(col_idx);
                     let value = self.format_json_value(col, row_idx);
-                    write!(writer, "\"{}\": {}", field_name, value)?;
+                    write!(writer, "{}: {}", json_string(field_name), value)?;
                 }
                 write!(writer, "}}")?;
                 row_count += 1;
@@ -269,12 +270,7 @@ impl OutputFormatter {
 
         let value = self.format_display_value(array, row);
 
-        // Quote if contains comma, quote, or newline
-        if value.contains(',') || value.contains('"') || value.contains('\n') {
-            format!("\"{}\"", value.replace('"', "\"\""))
-        } else {
-            value
-        }
+        csv_quote(&value)
     }
 
     /// Format a single value for JSON output
@@ -286,13 +282,11 @@ impl OutputFormatter {
         match array.data_type() {
             DataType::Utf8 => {
                 let arr = array.as_any().downcast_ref::<StringArray>().unwrap();
-                let val = arr.value(row);
-                format!("\"{}\"", val.replace('\\', "\\\\").replace('"', "\\\""))
+                json_string(arr.value(row))
             }
             DataType::LargeUtf8 => {
                 let arr = array.as_any().downcast_ref::<LargeStringArray>().unwrap();
-                let val = arr.value(row);
-                format!("\"{}\"", val.replace('\\', "\\\\").replace('"', "\\\""))
+                json_string(arr.value(row))
             }
             DataType::Boolean => {
                 let arr = array.as_any().downcast_ref::<BooleanArray>().unwrap();
@@ -332,15 +326,15 @@ impl OutputFormatter {
             }
             DataType::Float32 => {
                 let arr = array.as_any().downcast_ref::<Float32Array>().unwrap();
-                arr.value(row).to_string()
+                json_number(arr.value(row) as f64, arr.value(row).to_string())
             }
             DataType::Float64 => {
                 let arr = array.as_any().downcast_ref::<Float64Array>().unwrap();
-                arr.value(row).to_string()
+                json_number(arr.value(row), arr.value(row).to_string())
             }
             _ => {
-                // For other types, use display format with quotes
-                format!("\"{}\"", self.format_display_value(array, row))
+                // For other types, use display format as a JSON string
+                json_string(&self.format_display_value(array, row))
             }
         }
     }
@@ -427,13 +421,15 @@ impl OutputFormatter {
                 let arr = array.as_any().downcast_ref::<Decimal128Array>().unwrap();
                 let value = arr.value(row);
                 if *scale > 0 {
-                    let divisor = 10i128.pow(*scale as u32);
-                    let int_part = value / divisor;
-                    let frac_part = (value % divisor).abs();
+                    // Sign handled separately: for -1 < x < 0 the integer part is 0
+                    // and would otherwise lose the minus.
+                    let divisor = 10u128.pow(*scale as u32);
+                    let magnitude = value.unsigned_abs();
                     format!(
-                        "{}.{:0>width$}",
-                        int_part,
-                        frac_part,
+                        "{}{}.{:0>width$}",
+                        if value < 0 { "-" } else { "" },
+                        magnitude / divisor,
+                        magnitude % divisor,
                         width = *scale as usize
                     )
                 } else {
@@ -455,6 +451,47 @@ impl OutputFormatter {
                 format!("{:?}", array.as_ref())
             }
         }
+    }
+}
+
+/// Quote a CSV field per RFC 4180 when it contains a comma, a quote or a line
+/// break (CR or LF); used for cells and for the header.
+fn csv_quote(value: &str) -> String {
+    if value.contains(',') || value.contains('"') || value.contains('\n') || value.contains('\r') {
+        format!("\"{}\"", value.replace('"', "\"\""))
+    } else {
+        value.to_string()
+    }
+}
+
+/// A JSON string literal (RFC 8259): `"` and `\` escaped, control characters
+/// written as `\n`, `\t`, ... or `\u00XX`.
+fn json_string(value: &str) -> String {
+    let mut out = String::with_capacity(value.len() + 2);
+    out.push('"');
+    for c in value.chars() {
+        match c {
+            '"' => out.push_str("\\\""),
+            '\\' => out.push_str("\\\\"),
+            '\n' => out.push_str("\\n"),
+            '\r' => out.push_str("\\r"),
+            '\t' => out.push_str("\\t"),
+            '\u{08}' => out.push_str("\\b"),
+            '\u{0c}' => out.push_str("\\f"),
+            c if (c as u32) < 0x20 => out.push_str(&format!("\\u{:04x}", c as u32)),
+            c => out.push(c),
+        }
+    }
+    out.push('"');
+    out
+}
+
+/// JSON has no spelling for NaN / infinity: they become `null`.
+fn json_number(value: f64, text: String) -> String {
+    if value.is_finite() {
+        text
+    } else {
+        "null".to_string()
     }
 }
 
